@@ -151,7 +151,22 @@ def _coercion_posts():
             body = True
         return Implies(res_flag(r), body)
 
-    return {"not_repaired_frame": not_repaired_frame, "repaired_facts": repaired_facts}
+    def integer_numerals_become_ints(a, r):
+        """a numeral without a decimal point or exponent denotes an integer: it is converted by int() - exactly, whatever
+        its size or digit grouping - never through a float"""
+        v = a.old.value
+        if symbolic(v) or symbolic(res_flag(r)):
+            s = strip(str_val(v)) if symbolic(v) else v.strip()
+            s = s if V.is_z3(s) else z3.StringVal(s)
+            # `lower` is an uninterpreted function for the solver: the clause is stated over the same term the code tests
+            no_float_syntax = z3.And(z3.Not(z3.Contains(s, z3.StringVal("."))), z3.Not(z3.Contains(V.str_lower(s), z3.StringVal("e"))))
+            return Implies(And(res_flag(r), is_str(v), no_float_syntax), is_int(res_value(r)))
+        if res_flag(r) is True and isinstance(v, str) and not any(c in v for c in ".eE"):
+            rv = res_value(r)
+            return isinstance(rv, int) and not isinstance(rv, bool) and rv == int(v.strip())
+        return True
+
+    return {"not_repaired_frame": not_repaired_frame, "repaired_facts": repaired_facts, "integer_numerals_become_ints": integer_numerals_become_ints}
 
 
 def _finite(v):
@@ -160,11 +175,24 @@ def _finite(v):
     return isinstance(v, float) and math.isfinite(v)
 
 
+def _type_number():
+    from octave_mcp.core.constraints import TypeConstraint
+
+    return TypeConstraint(expected_type="NUMBER")
+
+
+def _fresh_log():
+    from octave_mcp.core.repair_log import RepairLog
+
+    return RepairLog(repairs=[])
+
+
 COERCION = FunctionContract(
     M, "_attempt_type_coercion",
     {"value": AnyVal(), "constraint": Obj("TypeConstraint", "octave_mcp.core.constraints", expected_type=Str()), "repair_log": LogParam()},
     _coercion_posts(),
     covers={"repairs": lambda a, r: res_flag(r), "declines": lambda a, r: Not(res_flag(r))},
+    replay_hints=[(lambda t=t: {"value": t, "constraint": _type_number(), "repair_log": _fresh_log()}) for t in ("9_007_199_254_740_993", "1_000_000_000_000_000_000_000_001", "1_000", " 42 ", "+7", "9007199254740993", "-0", "١٢٣", "1e3", "2.50")],
 )
 
 
